@@ -54,8 +54,9 @@ def gen_case(rng, idx, backend="dummy", start_method="fork", max_ops=60):
     img = obs_kind in ("image_hwc", "image_chw", "dict")
     scripts = []
     for i in range(n):
+        # info / reset_info tag -1 = the env returns an EMPTY dict (falsy): catches code that treats {} like "no info"
         scripts.append(se.gen_script(rng, n_episodes=rng.randint(1, 4), max_len=5, tag_base=(i * 50 if img else i * 1000),
-                                     tag_cap=255 if img else se.MAXTAG - 1))
+                                     tag_cap=255 if img else se.MAXTAG - 1, p_empty_info=rng.choice([0.0, 0.3, 0.5])))
     n_ops = rng.randint(20, max_ops) if backend == "dummy" else rng.randint(12, 30)
     ops = []
     if rng.random() < 0.5:
@@ -142,7 +143,8 @@ def _dec_batch(space, batch, n):
 
 
 def _rinfos(venv):
-    return [(d.get("tag") if isinstance(d, dict) and d else None) for d in venv.reset_infos]
+    # an empty dict (never reset, or the env returned {}) decodes to -1, like a missing "tag"
+    return [(d.get("tag", -1) if isinstance(d, dict) else None) for d in venv.reset_infos]
 
 
 def make_venv(case):
@@ -178,7 +180,7 @@ def run_impl(case, ops=None):
                     info = infos[i]
                     r = float(rews[i]) * 4.0
                     term = _dec(space, info["terminal_observation"]) if "terminal_observation" in info else None
-                    outs.append([tags[i], int(r) if r == int(r) else r, bool(dones[i]), info.get("tag"),
+                    outs.append([tags[i], int(r) if r == int(r) else r, bool(dones[i]), info.get("tag", -1),
                                  info.get("TimeLimit.truncated"), term])
                 ok_types = (np.asarray(dones).dtype == np.bool_ and len(rews) == n and len(dones) == n and len(infos) == n)
                 trace.append(["step", outs, _rinfos(venv), bool(ok_types)])
@@ -213,7 +215,7 @@ def oracle(case, impl, ops=None):
     for i in range(n):
         eps = case["scripts"][i]["episodes"]
         ep_idx, pos = -1, 0          # episode index of the running episode, position inside
-        cur_rinfo = None
+        cur_rinfo = -1               # reset_infos[i] = {} before the first reset
         pend_seed, pend_opt = None, None
         exp_log = []
         for k, (op, tr) in enumerate(zip(ops, impl["trace"])):
@@ -313,6 +315,12 @@ def _opt(x):
     return x[1] if isinstance(x, tuple) and x and x[0] == "Some" else None
 
 
+def _ri(x):
+    """reset_infos entry of the model: None (never reset) and Some (-1) (the env returned {}) are both the empty dict"""
+    v = _opt(x)
+    return -1 if v is None else v
+
+
 def model_trace(case, val, ops=None):
     """convert the parsed Coq value into the implementation's trace/log format"""
     import numpy as np
@@ -334,11 +342,11 @@ def model_trace(case, val, ops=None):
         if v == "PNone":
             trace.append(["none"])
         elif v[0] == "PReset":
-            trace.append(["reset", list(v[1]), [_opt(x) for x in v[2]]])
+            trace.append(["reset", list(v[1]), [_ri(x) for x in v[2]]])
             calls(v[3])
         elif v[0] == "PStep":
             outs = [[o[0], o[1], o[2], o[3], o[4], _opt(o[5])] for o in v[1]]
-            trace.append(["step", outs, [_opt(x) for x in v[2]], True])
+            trace.append(["step", outs, [_ri(x) for x in v[2]], True])
             calls(v[3])
         elif v[0] == "PSeed":
             trace.append(["seed", [_opt(x) for x in v[1]]])
